@@ -764,4 +764,6 @@ def run(P, R, tier):
     # shared (round 9): junk ids are looked up too - a comparator that overflows on them loses live requests
     from . import c19 as _c19
     _c19.comparators(P, R, 'C08.ARITH.1')
+    # a long line is logged through the growing buffer: the argument list it is formatted from must still be intact
+    rules.va_list_once(P, R, 'C08.MPT.6')
     return EXPLANATION, ASSUMPTIONS
